@@ -3,7 +3,9 @@
 Monitor shape: differential monitor over two sibling executions built from ONE configuration
 dict in which only `non_emitting` differs (first-order transition model, no width pruning).
 """
-from .. import env  # noqa: F401
+import logging
+
+from .. import env
 from .. import gen, build, mcase
 
 ID = "C06"
@@ -19,13 +21,28 @@ ANCHORS = [("leuvenmapmatching/matcher/base.py", "BaseMatcher._match_non_emittin
            ("leuvenmapmatching/matcher/base.py", "LatticeColumn.upsert"),
            ("leuvenmapmatching/matcher/base.py", "BaseMatching.update")]
 FLOORS = {"pairs_judged": 1800, "on_run_uses_nonemitting": 500, "results_differ": 300, "both_complete": 800, "on_run_longer": 50,
-          "family:simple": 300, "family:simple_nodes": 300, "family:distance": 300}
+          "family:simple": 300, "family:simple_nodes": 300, "family:distance": 300, "debug_level_pairs": 400}
 ASSUMPTIONS = ["both runs are instantiated from one explicit configuration dict; only `non_emitting` differs",
                "best probability compared at 1e-9*max(1,|x|)"]
 
 
 def gen_case(rng, i, tier):
-    return mcase.gen_mcase(rng, ne=False, width=False, agb=False, tighten_p=0.3, sparse_p=0.55, max_obs=9)
+    case = mcase.gen_mcase(rng, ne=False, width=False, agb=False, tighten_p=0.3, sparse_p=0.55, max_obs=9)
+    if rng.random() < 0.3:
+        # exact ties between a non-emitting chain and the direct emitting candidate: no length penalty, observations ON the roads
+        case["cfg"]["ne_factor"] = 1.0
+        c = gen.coords(case["map"])
+        es = gen.real_edges(case["map"])
+        if es and rng.random() < 0.6:
+            tr = []
+            for p in case["trace"]:
+                a, b = rng.choice(es)
+                t = rng.choice([0.0, 0.25, 0.5, 1.0])
+                tr.append([c[a][0] + t * (c[b][0] - c[a][0]), c[a][1] + t * (c[b][1] - c[a][1])])
+            case["trace"] = tr
+        case["cfg"]["restrained_ne"] = rng.random() < 0.5
+    case["debug"] = rng.random() < 0.2   # both sibling runs at DEBUG: the relation must hold at every log level
+    return case
 
 
 def check_case(ctx, case):
@@ -35,11 +52,15 @@ def check_case(ctx, case):
         cfg = dict(case["cfg"])
         cfg["non_emitting"] = on
         mt = build.make_matcher(build.make_inmem(case["map"]), cfg)
+        if case.get("debug"):
+            env.logger.setLevel(logging.DEBUG)
         try:
             r = mt.match(tr)
         except Exception as e:
             ctx.count("match_raised")
             return
+        finally:
+            env.logger.setLevel(logging.ERROR)
         c = build.canon(mt, r)
         c["uses_ne"] = any(x.obs_ne for x in (mt.lattice_best or []))
         res[on] = c
@@ -47,6 +68,8 @@ def check_case(ctx, case):
     fam = case["cfg"]["family"]
     ctx.evaluated(2)
     ctx.count("pairs_judged")
+    if case.get("debug"):
+        ctx.count("debug_level_pairs")
     ctx.count(f"family:{fam}")
     n = len(tr)
     oi = -1 if off["empty"] else off["idx"]
